@@ -42,6 +42,9 @@ func (x *Exec) sortOf(t types.Type) Sort {
 	if isReflectType(t) {
 		return SInt // descriptors, resolved statically (DESIGN.md 3.5)
 	}
+	if t == keysetType {
+		return arraySort(SStr, SBool)
+	}
 	switch u := t.Underlying().(type) {
 	case *types.Basic:
 		switch {
